@@ -112,7 +112,9 @@ def run_case(case):
         F = np.array([[SymReal(z3.Real('f%d_%d' % (i, k))) for k in range(3)] for i in range(2)], dtype=object)
         bonds = {0: [(1, SymReal(z3.Real('b01')))], 1: [(0, SymReal(z3.Real('b01')))]}
         mark = len(ctx.log)
-        ret = be._minimize_molecules(F, X0, X0.mean(axis=0), SymReal(z3.Real('sigma')), n_steps, [(0, 1)], bonds, SymReal(z3.Real('width')), sim)
+        # the centre argument is an arbitrary symbolic point: rotations must use the centroid of the held configuration, whatever the caller passes
+        com_arg = np.array([SymReal(z3.Real('com%d' % k)) for k in range(3)], dtype=object)
+        ret = be._minimize_molecules(F, X0, com_arg, SymReal(z3.Real('sigma')), n_steps, [(0, 1)], bonds, SymReal(z3.Real('width')), sim)
         draws = [l for l in ctx.log[mark:] if l[0] in ('draw', 'normal-args')]
         return ret, X0, F, bonds, draws, {k: list(v) if isinstance(v, list) else v for k, v in log.items()}
 
@@ -240,6 +242,46 @@ def replay(w):
     import gaddlemaps._backend as be
     sim, n_steps = tuple(w['sim']), w['n_steps']
     choices, decisions, energies = w['choices'], w['decisions'], w.get('energies')
+    if any('proposal' in p for p in w.get('problems', [])):
+        # geometry of the proposals: observe the configurations the real loop evaluates (through the Chi2Calculator name it
+        # resolves at call time), with the centre argument deliberately different from the centroid
+        seen = []
+
+        class E:
+            def __init__(self, *a): pass
+            def __call__(self, cfg):
+                seen.append(np.array(cfg, dtype=float).copy()); return 10.0 - len(seen)       # always improving: every proposal accepted
+        saved = be.Chi2Calculator
+        be.Chi2Calculator = E
+        X0 = np.array([[0.0, 0.0, 0.0], [0.3, 0.1, 0.0], [0.5, -0.2, 0.4]])
+        bonds = {0: [(1, 0.3162)], 1: [(0, 0.3162), (2, 0.5385)], 2: [(1, 0.5385)]}
+        import io, contextlib
+        bad = []
+        st_ = np.random.get_state(); np.random.seed(4)
+        try:
+            for kind in sim:
+                del seen[:]
+                calls = [0]
+                real_choice = np.random.choice
+                with contextlib.redirect_stdout(io.StringIO()):
+                    try:
+                        be._minimize_molecules(None, X0.copy(), np.array([5.0, -3.0, 2.0]), 0.5, 1, [], bonds, 0.2, (kind,))
+                    except Exception:
+                        pass
+                    if len(seen) > 6:
+                        pass
+                D = lambda A: np.array([[np.linalg.norm(A[i] - A[j]) for j in range(len(A))] for i in range(len(A))])
+                for a, b in zip(seen, seen[1:4]):
+                    if kind in (0, 1) and np.abs(D(a) - D(b)).max() > 1e-9:
+                        bad.append('a %s proposal changes interatomic distances' % ('translation' if kind == 0 else 'rotation'))
+                    if kind == 1 and np.abs(a.mean(axis=0) - b.mean(axis=0)).max() > 1e-9:
+                        bad.append('a rotation proposal moves the centroid (rotation is not about the centroid of the held configuration)')
+        finally:
+            be.Chi2Calculator = saved
+            np.random.set_state(st_)
+        bad = sorted(set(bad))
+        if bad:
+            return {'reproduced': True, 'what': 'Monte-Carlo loop proposals: ' + '; '.join(bad), 'detail': {}}
     if not energies:
         return {'reproduced': False, 'what': 'no concrete energies in the witness', 'detail': {}}
     trace = {'E': [], 'acc': [], 'choice_i': 0}
